@@ -298,11 +298,29 @@ func runFree(in sx.Tree) sx.Tree {
 	}
 	tab := table(ex, roots)
 	netd := r.netDump(tab, rootIDs)
+	stalled := false
+	if in.Len() >= 5 {
+		for _, k := range in.At(4).Kids {
+			r.stall[k.Int()] = true
+			stalled = true
+		}
+	}
 	done := make(chan struct{})
 	go func() {
 		ex.Execute()
 		close(done)
 	}()
+	// with some discarding subtree stalled, everybody else must still be able to go on: the source finishes
+	// emitting (nobody upstream of the stalled nodes waits for them)
+	stallOK := int64(1)
+	if stalled {
+		select {
+		case <-r.srcEnded:
+		case <-time.After(4 * time.Second):
+			stallOK = 0
+		}
+		close(r.stallCh)
+	}
 	limit := time.Duration(timeout)*time.Second + 3*time.Second
 	for _, ph := range r.script {
 		if !ph.ok {
@@ -322,5 +340,5 @@ func runFree(in sx.Tree) sx.Tree {
 		recv, proc, filt, fail, disc := counters(c.Config.ID)
 		ks = append(ks, sx.Ints(recv, proc, filt, fail, disc))
 	}
-	return sx.T(netd, sx.T(tr...), sx.T(ks...))
+	return sx.T(netd, sx.T(tr...), sx.T(ks...), sx.L(stallOK))
 }
